@@ -526,6 +526,7 @@ type Macro struct {
 	Params []string
 	Body   Expr
 	Rec    bool // uninterpreted recursive spec function
+	Def    bool // "spec def": like Rec, but the defining equation is only made available at ground uses (never under a binder)
 	UF     bool // uninterpreted specification function (no body)
 	Src    string
 	PTypes []string
@@ -917,9 +918,15 @@ func parseSig(s string) (name string, params, ptypes []string, rest string, err 
 }
 
 func parseMacro(kind, s string) (*Macro, error) {
-	rec := false
+	rec, def := false, false
 	if strings.HasPrefix(s, "rec ") {
 		rec = true
+		s = strings.TrimSpace(s[4:])
+	} else if strings.HasPrefix(s, "def ") {
+		// an opaque definition: an uninterpreted function whose defining
+		// equation is unfolded once at every ground use and not at all at
+		// uses that mention bound variables
+		rec, def = true, true
 		s = strings.TrimSpace(s[4:])
 	}
 	name, params, ptypes, rest, err := parseSig(s)
@@ -938,7 +945,7 @@ func parseMacro(kind, s string) (*Macro, error) {
 	if err != nil {
 		return nil, fmt.Errorf("%s: %v", name, err)
 	}
-	return &Macro{Name: name, Params: params, PTypes: ptypes, RType: rtype, Body: body, Rec: rec, Src: rest[eq+1:]}, nil
+	return &Macro{Name: name, Params: params, PTypes: ptypes, RType: rtype, Body: body, Rec: rec, Def: def, Src: rest[eq+1:]}, nil
 }
 
 func parseLocList(s string) ([]Expr, error) {
